@@ -6,6 +6,7 @@ numbers, docstrings (PLY reads them as grammar) and names are preserved.  REDIRE
 it is copied into every evidence file.
 """
 import ast
+import re
 import builtins
 import decimal as _decimal
 
@@ -416,6 +417,8 @@ def vf_fstr(*parts):
             piece = vf_repr(value)
         elif conv == ord("s") and spec in (None, ""):
             piece = vf_str(value)
+        elif conv == -1 and spec == "d" and isinstance(value, SymInt):
+            piece = vf_int_to_str(value)          # format(int, "d") is what "%d" % int prints
         else:
             if _is_sym(value):
                 raise EngineUnsupported("f-string conversion/spec on a proxy")
@@ -462,6 +465,18 @@ def vf_len(x):
     h = getattr(type(x), "__vf_len__", None)
     if h is not None:
         return h(x)
+    if type(x) in (list, tuple) and any(getattr(type(e), "__vf_run__", False) for e in x):
+        # a plain sequence that holds a run of operands: its length is that of the operands it stands for, not of the pseudo-elements
+        n, total = 0, None
+        for e in x:
+            if getattr(type(e), "__vf_run__", False):
+                c = getattr(e, "count", None)
+                if c is None:
+                    raise EngineUnsupported("len() of a sequence holding a run of unknown length")
+                total = c if total is None else total + c
+            else:
+                n += 1
+        return total + n
     return builtins.len(x)
 
 
@@ -803,8 +818,21 @@ def vf_loop_iter(key, it):
 WHILE_CUTS = {}
 
 
-def vf_while_enter(key, loc, rebindable=None):
+# cuts registered for every loop whose key matches a pattern (a loop may move to a helper when code is refactored): [(compiled regex, handler)]
+WHILE_CUT_PATTERNS = []
+
+
+def _cut_for(key):
     h = WHILE_CUTS.get(key)
+    if h is None:
+        for rx, hh in WHILE_CUT_PATTERNS:
+            if rx.fullmatch(key):
+                return hh
+    return h
+
+
+def vf_while_enter(key, loc, rebindable=None):
+    h = _cut_for(key)
     if h is None:
         c = sym.Ctx.cur
         if c is not None:
@@ -831,7 +859,7 @@ LOOP_UNFOLD_LIMIT = 64
 
 
 def vf_while_step(key, loc):
-    h = WHILE_CUTS.get(key)
+    h = _cut_for(key)
     if h is None:
         # a loop without a registered invariant is unfolded; over symbolic data that may never end: give up loudly
         c = sym.Ctx.cur
